@@ -53,4 +53,6 @@ def checks(tier):
     return [
         Check("enum", _run, cases=_enum, shards={"quick": 8, "thorough": 16}, exhaustive=True),
         Check("gen", _run, strategy=histories("replay", n), examples={"quick": 4000, "thorough": 16 * 20000}, shards={"quick": 8, "thorough": 16}),
+        # last on purpose: a failure here must not cut the two searches above short
+        Check("falsy_error", _run, strategy=histories("replay", 12, falsy_error=True), examples={"quick": 400, "thorough": 16 * 1000}, shards={"quick": 1, "thorough": 16}),
     ]
